@@ -65,6 +65,22 @@ c06('EBCM_discrete_from_graph', 'nan', ['iso=1/p1=1'],
 c06('Attack_rate_cts_time_from_graph', 'accept:ZeroDivisionError', ['iso=1/gamma0=1'],
     "Attack_rate_cts_time_from_graph raises ZeroDivisionError for a graph with isolated nodes and gamma=0: psihatPrime evaluates k*Pk*Sk0*x**(k-1) at x=omega=0 for k=0 (analytic.py:4852)")
 
+def c14(entry, what, quals, text):
+    for q in quals:
+        add('C14', 'C14/%s/%s/%s' % (entry, what, q), text)
+
+for ent in ('SIS_individual_based', 'SIS_individual_based_pure_IC'):
+    c14(ent, 'raises', ['labels=str', 'labels=tup', 'labels=ints'],
+        "%s works on nodes 0..N-1 but raises IndexError on string / tuple / arbitrary integer labels: _dSIS_individual_based_ indexes the state vector by node label (analytic.py:482)" % ent)
+    c14(ent, 'differs', ['labels=perm'],
+        "%s gives a different (wrong) solution when the integer labels are permuted: Y[node], Y[nbr] instead of the position in nodelist (analytic.py:482)" % ent)
+for ent in ('SIS_pair_based', 'SIR_pair_based', 'SIS_pair_based_pure_IC', 'SIR_pair_based_pure_IC'):
+    c14(ent, 'differs', ['labels=str+weight-attr', 'labels=perm+weight-attr', 'labels=tup+weight-attr'],
+        "%s changes its result when the edges carry an unrelated attribute named 'weight': nx.adjacency_matrix(G) picks it up and scales the initial pair probabilities XY0, XX0 (analytic.py:1264/1567)" % ent)
+for ent in ('SIS_pair_based_pure_IC', 'SIR_pair_based_pure_IC', 'SIS_pair_based', 'SIR_pair_based'):
+    c14(ent, 'differs', ['nodelist=1'],
+        "%s with an explicit nodelist depends on the insertion order of the nodes: nx.adjacency_matrix(G) is in G.nodes() order, the state vectors in nodelist order (analytic.py:1264/1567)" % ent)
+
 extra = os.path.join(V, 'tools', 'ic_findings_c14.json')
 if os.path.exists(extra):
     F += json.load(open(extra))
